@@ -21,6 +21,34 @@ QUICK_SHARDS = 4
 THOROUGH_SHARDS = 16
 
 
+INDEX_TURN = [0]
+
+
+def string_index(inv):
+    """The string index in one of the kinds of object a caller may hold it in - the decoder only ever subscripts it: a
+    plain dict, a read-only view, a UserDict, a table that is filled lazily (dict subclass with __missing__), a tuple
+    indexed by string id."""
+    import collections
+    import types
+    INDEX_TURN[0] += 1
+    k = INDEX_TURN[0] % 7
+    if k == 3:
+        return types.MappingProxyType(inv)
+    if k == 4:
+        return collections.UserDict(inv)
+    if k == 5:
+        class Lazy(dict):
+            def __missing__(self, key):
+                return inv[key]
+        return Lazy()
+    if k == 6 and inv and all(isinstance(i, int) and 0 <= i < 5000 for i in inv):
+        seq = [None] * (max(inv) + 1)
+        for i, text in inv.items():
+            seq[i] = text
+        return tuple(seq)
+    return inv
+
+
 def decode(res, raw, inv, label):
     from pykdebugparser.os_log_event import OsLogEvent
     def case():
@@ -37,7 +65,7 @@ def decode(res, raw, inv, label):
         walk(raw)
         return {'raw': raw, 'strings': used}
     try:
-        got = OsLogEvent.from_raw_log_event(logs.fresh(raw), inv)
+        got = OsLogEvent.from_raw_log_event(logs.fresh(raw), string_index(inv))
     except Exception as x:
         where = core.short_tb(x, 1)
         key = f'c16-raises-{core.exc_name(x)}-{where[-1] if where else "?"}'
